@@ -2,7 +2,7 @@
    Only property theorems, each closed by quoting lemmas proved elsewhere, and Print Assumptions.
    Generated from Properties/bodies/C16.v.in by mkprop.py (shared preamble: hdr.txt, sec.txt). *)
 From Coq Require Import Arith NArith Bool List Lia.
-Require Import Canon SemTk CountTk TableProto BddBase BddIte BddCR BddSat BddCof BddCof2 BddCtor BddEval BddPaths BddPathsCount BddReach BddExport BddDot BddMinimal BddTerm Glue Machine Reachable OpSpecs.
+Require Import Canon SemTk CountTk TableProto BddBase BddIte BddCR BddSat BddCof BddCof2 BddCtor BddEval BddPaths BddPathsCount BddReach BddExport BddDot BddMinimal BddTerm BddTerm2 Glue Machine Reachable OpSpecs FuelMono FuelMono2.
 Import ListNotations.
 Local Open Scope N_scope.
 
@@ -49,6 +49,17 @@ Section C16.
       (forall k r, nth_error rl k = Some r -> In (DRoot k r) recs) /\
       (forall r t, In r rl -> V (store mr) r t -> RepF (read_cell recs) (idx r) t).
   Proof. exact (dot_step_spec nhash khash bmask cmask0 smask0 capacity cap_ok mr l rl fuel mr' x). Qed.
+  (* the bracket export and descendants always return and leave the state unchanged (fuel above the height of the diagram,
+     resp. three times the table capacity plus the number of roots) *)
+  Theorem C16_bracket_returns mr f rf : reachable mr -> liveh mr f rf ->
+    exists bound, forall fuel, (bound <= fuel)%nat -> exists t, mstep fuel mr (HBracket f) = Some (mr, OBracket t).
+  Proof. exact (bracket_step_returns nhash khash bmask cmask0 smask0 capacity cap_ok mr f rf). Qed.
+  Theorem C16_descendants_returns mr l rl : reachable mr -> fetch_all (snd mr) l = Some rl ->
+    exists bound, forall fuel, (bound <= fuel)%nat -> exists vis, mstep fuel mr (HDesc l) = Some (mr, OList vis).
+  Proof. exact (desc_step_returns nhash khash bmask cmask0 smask0 capacity cap_ok mr l rl). Qed.
+  Theorem C16_dot_returns mr l rl : reachable mr -> fetch_all (snd mr) l = Some rl ->
+    exists bound, forall fuel, (bound <= fuel)%nat -> exists recs, mstep fuel mr (HDot l) = Some (mr, ODot recs).
+  Proof. exact (dot_step_returns nhash khash bmask cmask0 smask0 capacity cap_ok mr l rl). Qed.
 End C16.
 
 Print Assumptions C16_queries_pure.
@@ -56,3 +67,6 @@ Print Assumptions C16_size_pure.
 Print Assumptions C16_accessors_pure.
 Print Assumptions C16_bracket_faithful.
 Print Assumptions C16_dot_faithful.
+Print Assumptions C16_bracket_returns.
+Print Assumptions C16_descendants_returns.
+Print Assumptions C16_dot_returns.
